@@ -6,6 +6,7 @@
 // "C++ exception".  Cases of one call form share a child until one dies; the child is then restarted after that case.
 #include "vf_fork.hpp"
 #include "ma-filter.h"
+#include <sstream>
 
 using namespace vf;
 using namespace dsplib;
@@ -284,6 +285,25 @@ static void build_catalogue() {
                 });
                 if (in == n) ADD("czt", fmt("n=%d m=%d", n, m), keep(czt(X(n), m, expj(-2 * pi / m), cmplx_t(0.9, 0.1))));
             }
+    // pointer overload of the plan base class on a chirp-z plan with fewer / more output bins than input samples
+    for (int n : {1, 2, 3, 5, 8})
+        for (int m : {1, 2, 3, 4, 7, 8, 16}) {
+            ADD("CztPlan.solve(ptr)", fmt("n=%d m=%d", n, m), CztPlan p(n, m, expj(-2 * pi / m)); arr_cmplx x = X(n); arr_cmplx y(std::max(n, m));
+                static_cast<const BaseFftPlanC&>(p).solve(x.data(), y.data(), n); keep(y));
+        }
+    // formatted output of arrays of every small length, the empty array included
+    for (int n : {0, 1, 2, 3}) {
+        ADD("ostream << array", fmt("n=%d", n), std::ostringstream os; os << R(n); keep((double)os.str().size()));
+        ADD("ostream << cmplx array", fmt("n=%d", n), std::ostringstream os; os << X(n); keep((double)os.str().size()));
+    }
+    ADD("ostream << cmplx_t", "", std::ostringstream os; os << cmplx_t(1, -2) << cmplx_t(-0.0, 0.0); keep((double)os.str().size()));
+    // from_file on things that open but cannot be read as a stream of samples
+    for (const char* path : {"/", "/tmp", "/dev/null", "/proc/self/mem", "/nonexistent/file"})
+        for (int ty = 0; ty < 4; ++ty) {
+            const dtype dt = ty == 0 ? dtype::int16 : (ty == 1 ? dtype::uint16 : (ty == 2 ? dtype::int32 : dtype::uint32));
+            ADD("from_file", fmt("path=%s dtype=%d", path, ty), keep(from_file(path, dt)));
+            ADD("from_file(count)", fmt("path=%s dtype=%d count=3 offset=1", path, ty), keep(from_file(path, dt, endian::little, 1, 3)));
+        }
     for (int n : {1, 3, 5, 7}) ADD("IfftPlanR(odd)", fmt("n=%d", n), IfftPlanR p(n); keep(p.solve(X(n))));
     // ======================================================================== FIR, windows, designs
     for (int nh : {0, 1, 2, 3, 8})
